@@ -51,7 +51,7 @@ EnsureLoaded(S, f) ==
            heap2  == [i \in DOMAIN heap1 |->
                         IF i \in newIds THEN [m \in 1..N |-> IF m \in miss THEN NaN ELSE heap1[i][m]] ELSE heap1[i]]
        IN  [heap |-> heap2, fcache |-> fc1, nid |-> S.nid + Len(oseq),
-            steps |-> S.steps \o <<[ev |-> "Load", field |-> f, owners |-> oseq, shared |-> SortInts((1..NA) \ owners),
+            steps |-> S.steps \o <<[ev |-> "Load", field |-> f, ids |-> [j \in 1..NA |-> fc1[j][f]],
                                     propagated |-> Cardinality({m \in miss : \E j \in 1..NA : ~IsNaN(heap1[fc1[j][f]][m])})]>>]
 
 ObsRangeMask(S, j) ==    \* data.py: temp[temp < lo] = nan ; temp[temp > hi] = nan  on the cached array itself
